@@ -75,6 +75,9 @@ class SymArray:
         idx = tuple(_si(i) for i in idx)
         if len(idx) != self.ndim:
             raise Unsupported(f"index arity {len(idx)} for {self.ndim}-d array")
+        rd = sym.ctx().ghost.get("reads")
+        if rd is not None:
+            rd.append(id(self))
         key = tuple(i.e.get_id() for i in idx)
         if key not in self._memo:
             self._memo[key] = self._fn(*idx)
@@ -215,13 +218,15 @@ class SymArray:
             _idx_ob(b, self.shape[1])
             v = val
             self._fn = lambda i, k: ite(z3.And(i.e == a.e, k.e == b.e), v, old.at(i, k))
-            writes.append((self, (a, b)))
+            from .autoloops import Region
+            writes.append((self, Region(None, 2, {0: a.e, 1: b.e}, {}, v, [])))
         elif isinstance(key, (int, SI)) and self.ndim == 1:
             a = _si(key)
             _idx_ob(a, self.shape[0])
             v = val
             self._fn = lambda i: ite(i.e == a.e, v, old.at(i))
-            writes.append((self, (a,)))
+            from .autoloops import Region
+            writes.append((self, Region(None, 1, {0: a.e}, {}, v, [])))
         elif isinstance(key, tuple) and len(key) == 2 and isinstance(key[0], slice) and key[0] == slice(None) and isinstance(key[1], (int, SI)) and self.ndim == 2:
             b = _si(key[1])
             _idx_ob(b, self.shape[1])
